@@ -154,6 +154,25 @@ func (a *Analyzer) CheckRule(clause ast.Clause) error {
 						boundVars[p.Interval.End.Variable] = true
 					}
 				}
+			case ast.Ineq:
+				// Evaluation proceeds left-to-right: both sides need a value at this point,
+				// otherwise the inequality would be decided against an unbound variable.
+				ineqVars := make(map[ast.Variable]bool)
+				ast.AddVars(p, ineqVars)
+				for v := range ineqVars {
+					if boundVars[v] {
+						continue
+					}
+					if x := uf.Get(v); x != nil {
+						if _, isconst := x.(ast.Constant); isconst {
+							continue
+						}
+						if u, isvar := x.(ast.Variable); isvar && boundVars[u] {
+							continue
+						}
+					}
+					return fmt.Errorf("variable %v in %v will not have a value yet; move the subgoal to the right", v, p)
+				}
 			case ast.Eq:
 				if _, isconst := p.Left.(ast.Constant); isconst {
 					if v, isvar := p.Right.(ast.Variable); isvar {
